@@ -56,7 +56,8 @@ ASSUMPTIONS = [
 ]
 REQUIRED_COUNTERS = ["honest_exchanges", "honest_completed", "tampered_nonce", "tampered_salt", "tampered_iterations",
                      "tampered_signature", "impostor_exchanges", "client_aborted_after_server_first",
-                     "client_aborted_after_server_final", "exchanges_through_step_on_loop"]
+                     "client_aborted_after_server_final", "exchanges_through_step_on_loop",
+                     "rotation_exchanges_against_old_password_server", "rotation_exchanges_against_new_password_server"]
 
 USERNAMES = [
     "user", "alice@example.com", "a,b", "a=b", "=,=,", ",", "=", ",=2C", "=3D", "u=2Cser=3D", "==2C,,=3D=",
@@ -264,6 +265,26 @@ class Checker:
         self.must_abort(p, self.make_server(p, mode="tamper", tamper=("signature", ("error",))),
                         ("signature", "error"), "tamper", "scram_accepts_server_error_as_success")
 
+    def rotation(self, p):
+        """A second login in the same process with the same mechanism, user name, salt and iteration count but ANOTHER
+        password (password rotation; a wrong password typed after a right one): (a) against a server that still knows only
+        the first password the client must not complete, (b) against a server that knows the new password it must."""
+        new_pw = p["password"] + "-rotated" if self.rng.random() < 0.5 else self.rng.choice([w for w in WRONG_PASSWORDS if w != p["password"]])
+        p2 = dict(p, password=new_pw)
+        server = self.make_server(p2, mode="honest", password=p["password"])      # knows the OLD password only
+        done, stage, exc, tr = self.exchange(p2, server)
+        self.count("rotation_exchanges_against_old_password_server")
+        self.note(p2, ["rotation", "old_password_server"])
+        if done:
+            self.violate("scram_completes_with_server_that_knows_another_password",
+                         "after a login with another password for the same user/salt/iterations, the client completed "
+                         "authentication against a server that does not know its current password",
+                         self.witness(p2, ["rotation", "server knows " + repr(p["password"])], tr))
+        else:
+            self.count(f"client_aborted_after_{stage}")
+        self.honest(p2)                                                           # knows the NEW password
+        self.count("rotation_exchanges_against_new_password_server")
+
     def impostors(self, p):
         rng = self.rng
         hlen = 32 if p["mechanism"].endswith("256") else 64
@@ -333,6 +354,7 @@ def run_shard(params):
             ck.honest(p)
             ck.tampers(p)
             ck.impostors(p)
+            ck.rotation(p)
             ck.count("parameter_sets")
             ck.count(f"parameter_sets_{p['mechanism']}")
             if p["iterations"] > 4096:
@@ -340,7 +362,8 @@ def run_shard(params):
     finally:
         lib.loop.close()
     res["evaluations"] = sum(v for k, v in ck.counters.items()
-                             if k in ("honest_exchanges", "impostor_exchanges") or k.startswith("tampered_"))
+                             if k in ("honest_exchanges", "impostor_exchanges", "rotation_exchanges_against_old_password_server")
+                             or k.startswith("tampered_"))
     res["violations"] = list(ck.violations.values())
     res["nontrivial"] = ck.nontrivial
     res["samples"] = ck.samples
